@@ -2,6 +2,7 @@ import os
 from enum import Enum
 import warnings
 
+import numpy as np
 import segyio
 import seismic_zfp
 
@@ -51,9 +52,15 @@ class SeismicFile:
 
         if file_type == Filetype.SEGY:
             handle = segyio.open(filename, mode='r', strict=False)
+            if not handle.unstructured and not SeismicFile._segy_geometry_is_consistent(handle):
+                # segyio infers the cube from the first and last traces and the trace count only, an irregular
+                # survey whose trace count happens to factorise would be taken for a (different) regular cube
+                handle.close()
+                handle = segyio.open(filename, mode='r', ignore_geometry=True)
             try:
                 metrics = handle.xfd.cube_metrics(189, 193)
-                handle.structured = (metrics['iline_count'] * metrics['xline_count']) == handle.tracecount
+                handle.structured = (not handle.unstructured and
+                                     (metrics['iline_count'] * metrics['xline_count']) == handle.tracecount)
             except RuntimeError:
                 handle.structured = False
         elif file_type == Filetype.ZGY:
@@ -74,3 +81,18 @@ class SeismicFile:
         handle.filename = filename
 
         return handle
+
+    @staticmethod
+    def _segy_geometry_is_consistent(handle):
+        """Every trace carries the inline/crossline numbers of its position in the cube segyio inferred"""
+        if len(handle.offsets) != 1 or handle.tracecount != len(handle.ilines) * len(handle.xlines):
+            return True     # Not a plain post-stack cube, leave the decision to segyio
+        ilines = np.asarray(handle.attributes(segyio.TraceField.INLINE_3D)[:])
+        xlines = np.asarray(handle.attributes(segyio.TraceField.CROSSLINE_3D)[:])
+        shape = (len(handle.ilines), len(handle.xlines))
+        if handle.sorting == segyio.TraceSortingFormat.CROSSLINE_SORTING:
+            ilines, xlines = ilines.reshape(shape[::-1]).T, xlines.reshape(shape[::-1]).T
+        else:
+            ilines, xlines = ilines.reshape(shape), xlines.reshape(shape)
+        return bool(np.array_equal(ilines, np.broadcast_to(np.asarray(handle.ilines)[:, None], shape)) and
+                    np.array_equal(xlines, np.broadcast_to(np.asarray(handle.xlines)[None, :], shape)))
